@@ -386,8 +386,14 @@ def r5(ctx: Ctx) -> None:
             okv = poly_of(strip_ver(kw(ie, "volume"))) == poly_of(("bin", "*", ("call", ("name", "len"), (comps,), (), None), v)) and strip_ver(kw(ce, "volume")) == v
             okm = key(strip_ver(kw(ie, "market_id"))) == "market.market_id" and strip_ver(cl.iter) == comps and strip_ver(kw(ce, "market_id")) == ("attr", ("sym", f"{cl.target[0]}∈{cl.loopid}"), "market_id")
             one = all(len([x for x in calls(bp) if x.site.how == "ctor" and x.name == "Order"]) == 1 and not bp.conds for bp in cl.paths)
+            cv = strip_ver(kw(ce, "volume"))
+            hedged = poly_of(strip_ver(kw(ie, "volume"))) == poly_of(("bin", "*", ("call", ("name", "len"), (comps,), (), None), cv))
+            if not okv and hedged and okm and one:
+                # the basket is hedged (index leg = n x the component leg) but its size is not the configured volume: a sizing policy the rule has no statement about
+                ctx.unrec(f, ie.node, "hedged basket: index leg n x v on the index, one leg of v per component", "the legs are hedged, but v is not the configured order volume: how the basket is sized is not decided", f"v = {short(cv)[:120]}")
+                continue
             ctx.check(okv and okm and one, f, ie.node, "hedged basket: index leg n x v on the index, one leg of v per component", "index volume = len(components) x v; each component exactly one order of v", f"index vol={short(kw(ie, 'volume'))}, component vol={short(kw(ce, 'volume'))}, per-component orders ok={one}")
-        ctx.check(ok and got_sides == want_sides, f, f.node, "direction: index cheap (P < I, I - P > thr) -> buy index / sell components; index dear -> the mirror image; otherwise nothing", str(want_sides), str(got_sides))
+        ctx.check(ok and got_sides == want_sides, f, f.node, "direction: index cheap (P < I, I - P > thr) -> buy index / sell components; index dear -> the mirror image; otherwise nothing", str(want_sides), str(got_sides), guard="text", guard_text=p.describe())
     ctx.require(n >= 2, f"{q}: acting paths not found")
     # nothing is sent when neither gap condition holds
     for p in _paths(ctx, q):
